@@ -7,7 +7,6 @@ HSM-BUF.O5         : each entry loop enters slots j, j-1, ..., 0: one ENTRY call
                      slot 0 (outermost first, each state once, the target last).
 HSM-LCA.match      : where trans_ finds the common ancestor in slot q of the target's ancestor path, entry starts at slot q-1.
 HSM-SIGSET         : trans_ sends only SUPER/EXIT (entries are made by dispatch from the buffer); dispatch sends no REFLECTION.
-HSM-CURSOR.parent-read : after an EXIT call the parent is read from the cursor only once it is known (SUPER re-ask on HANDLED).
 HSM-CURSOR.I1      : dispatch leaves temp.fun == state.fun.
 HSM-CONTENT.O4/O5  : slot k holds the k-th ancestor of the target whenever it is used for entry (ghost frontier / depths).
 HSM-CONTENT.O6-exit: every EXIT goes to the ancestor of the current state at depth NX = exits made so far (no state skipped, repeated, or
@@ -35,7 +34,6 @@ def check(run, model, tier):
     run.rule('HSM-BUF.O5-entry-loop', 'entry loops: one ENTRY call and one -1 step per iteration, exit exactly after slot 0')
     run.rule('HSM-LCA.match', 'on a match in slot q the entry index becomes q-1 and the scan ends')
     run.rule('HSM-SIGSET', 'signals each processor method may send')
-    run.rule('HSM-CURSOR.parent-read', 'parent read from the cursor only after SUPER / non-HANDLED EXIT')
     run.rule('HSM-CURSOR.I1', 'temp.fun == state.fun at every normal exit')
     ba, res = hsmrules.record_buffer_obligations(run, model, 'dispatch')
     run.floor('buffer obligations in dispatch+trans_', len(res), 12)
@@ -55,8 +53,8 @@ def check(run, model, tier):
     hsmrules.lca_match_rule(run, model)
     n = hsmrules.signal_sets(run, model, ['dispatch', 'trans_'])
     run.floor('handler-call sites in dispatch+trans_', n, 14)
-    n = hsmrules.parent_read_typestate(run, model, ['dispatch', 'trans_'])
-    run.floor('EXIT-then-read-parent sites', n, 2)
+    # (the shape rule HSM-CURSOR.parent-read was retired: O6-exit decides the same thing - the state exited next is the parent of the one exited before -
+    #  for every way of writing the re-ask, see DESIGN 9.8)
     hsmrules.cursor_invariant(run, model, ['dispatch'])
     for a in ('H1 h(chart, SUPER|EMPTY) returns SUPER and sets temp.fun to the parent (top returns IGNORED)',
               'H2 h(chart, ENTRY|EXIT) returns HANDLED and leaves the cursor, or behaves as H1',
